@@ -15,5 +15,5 @@ git -C /repo diff --stat | tail -1
 for id in "$@"; do
   /verif/vr "$id" quick 2>&1 | grep -E "^(VIOLATION|INCONCLUSIVE|KNOWN|C[0-9]+ |BUILD)|signature=" | cut -c1-220 | head -12
 done
-git -C /repo checkout -- . 
+git -C /repo reset -q; git -C /repo checkout -- .
 git -C /verif checkout -- evidence 2>/dev/null
